@@ -669,3 +669,187 @@ func derefBeforeErrorCheck(c *Ctx, rule string) {
 	}
 	c.floor(rule, n, 5, "dereferences of values returned together with an error")
 }
+
+// ruleCodecFidelity (C01.12): the application's message is what was sent, byte for byte — as far as the codec calls go.
+func ruleCodecFidelity(c *Ctx, rule string) {
+	c.rule(rule, "codec fidelity: both receive methods decode exactly the bytes the reassembly returned into the caller's message with the plain protobuf decoder (no option that drops or tolerates content: DiscardUnknown, AllowPartial, Merge), and both send methods encode the caller's message with the protobuf encoder and hand exactly those bytes to the sender")
+	w := c.W
+	a := w.Anchors()
+	// no decoding option that loses content is ever switched on in the package (options may live in a package-level variable)
+	var lossy ssa.Instruction
+	for _, fn := range append(append([]*ssa.Function{}, w.Funcs...), w.SRoot.Func("init")) {
+		if fn == nil || isGenericTemplate(fn) {
+			continue
+		}
+		allInstrsLocal(fn, func(in ssa.Instruction) {
+			st, ok := in.(*ssa.Store)
+			if !ok || !isConstBool(st.Val, true) {
+				return
+			}
+			fa, isFA := st.Addr.(*ssa.FieldAddr)
+			if !isFA {
+				return
+			}
+			tn := typeNameOf(fa.X.Type())
+			fname := fieldName(fa.X.Type(), fa.Field)
+			if (tn == "proto.UnmarshalOptions" || tn == "proto.MarshalOptions" || tn == "UnmarshalOptions" || tn == "MarshalOptions") && (fname == "DiscardUnknown" || fname == "AllowPartial" || fname == "Merge") {
+				lossy = in
+			}
+		})
+	}
+	at := "-"
+	if lossy != nil {
+		at = w.At(lossy)
+	}
+	c.check(lossy == nil, rule, "no lossy codec option is enabled", at, "no DiscardUnknown / AllowPartial / Merge set to true", "a protobuf codec option that drops or tolerates content is switched on: fields the receiving schema does not know are stripped from (or incomplete messages accepted as) the application's message, so a pass-through receiver no longer forwards what was sent")
+	n := 0
+	for _, side := range []struct {
+		name       string
+		recv, read *ssa.Function
+		send       *ssa.Function
+	}{{"client", a.ClientRecv, a.ClientRead, a.ClientSend}, {"server", a.ServerRecv, a.ServerRead, a.ServerSend}} {
+		if !c.need(rule, side.name+" receive method", side.recv) || !c.need(rule, side.name+" send method", side.send) {
+			continue
+		}
+		n++
+		okDec := false
+		allInstrs(side.recv, func(in ssa.Instruction) {
+			call, ok := in.(*ssa.Call)
+			if !ok {
+				return
+			}
+			cn := calleeName(call)
+			if cn != "google.golang.org/protobuf/proto.Unmarshal" && cn != "(google.golang.org/protobuf/proto.UnmarshalOptions).Unmarshal" {
+				return
+			}
+			args := call.Call.Args
+			if cn != "google.golang.org/protobuf/proto.Unmarshal" {
+				args = args[1:]
+			}
+			if len(args) != 2 {
+				return
+			}
+			// data = first result of the read; message = the caller's parameter
+			dataOK := false
+			if ex, isEx := origin(args[0]).(*ssa.Extract); isEx && ex.Index == 0 {
+				if rc, isC := ex.Tuple.(*ssa.Call); isC && (staticCallee(rc) == side.read || w.ownedBy(staticCallee(rc), side.recv) || staticCallee(rc) != nil) {
+					dataOK = true
+				}
+			}
+			msgOK := false
+			if ta, isTA := stripConv(args[1]).(*ssa.TypeAssert); isTA && origin(ta.X) == ssa.Value(paramAt(side.recv, 1)) {
+				msgOK = true
+			}
+			if dataOK && msgOK {
+				okDec = true
+			}
+		})
+		c.check(okDec, rule, w.Short(side.recv)+": decodes the reassembled bytes into the caller's message", posOf(w, side.recv), "proto.Unmarshal(data, m)", "the receive method does not decode exactly the bytes the read returned into the message the caller passed")
+		okEnc := false
+		var enc *ssa.Call
+		allInstrs(side.send, func(in ssa.Instruction) {
+			call, ok := in.(*ssa.Call)
+			if !ok {
+				return
+			}
+			cn := calleeName(call)
+			if cn == "google.golang.org/protobuf/proto.Marshal" || cn == "(google.golang.org/protobuf/proto.MarshalOptions).Marshal" {
+				enc = call
+			}
+		})
+		if enc != nil {
+			for _, s := range c.senderSendSites() {
+				if !w.ownedBy(s.Parent(), side.send) && s.Parent() != side.send {
+					continue
+				}
+				for _, arg := range s.Common().Args {
+					if ex, isEx := origin(arg).(*ssa.Extract); isEx && ex.Tuple == ssa.Value(enc) && ex.Index == 0 {
+						okEnc = true
+					}
+				}
+			}
+		}
+		c.check(okEnc, rule, w.Short(side.send)+": sends exactly the encoded message", posOf(w, side.send), "sender.send(proto.Marshal(m))", "the send method does not hand the bytes of proto.Marshal(m) unchanged to the sender")
+	}
+	c.floor(rule, n, 2, "send/receive method pairs")
+}
+
+// ruleHeadersSettledByFirstData (C02.15): Header() answers no later than the first response message.
+func ruleHeadersSettledByFirstData(c *Ctx, rule string) {
+	c.rule(rule, "headers settled by the first data: in the client's per-stream accept method every path on which a data frame is handed to the receiver has closed the headers signal (or found it closed already: the got-headers flag tested true) — the protocol lets a server omit response_headers when there are none, so without this Header() blocks until the RPC ends although response messages are already being delivered")
+	w := c.W
+	a := w.Anchors()
+	if !c.need(rule, "ClientAccept", a.ClientAccept) {
+		return
+	}
+	sig, ok := c.headersSignalField()
+	if !ok {
+		c.fail(rule, "headers signal", "-", "cannot infer the headers-signal channel of the client stream")
+		return
+	}
+	acc := a.ClientAccept
+	var accepts []ssa.Instruction
+	allInstrs(acc, func(in ssa.Instruction) {
+		if ci, isC := in.(*ssa.Call); isC && ci.Call.IsInvoke() && ci.Call.Method.Name() == w.mName("accept") {
+			accepts = append(accepts, in)
+		}
+	})
+	c.floor(rule, len(accepts), 1, "hand-overs of data frames to the receiver")
+	flagTrue := func(pred, sc *ssa.BasicBlock) bool {
+		ef, has := edgeFact(pred, sc)
+		if !has {
+			return false
+		}
+		nf := normFact(ef)
+		if fr, _, isF := loadedField(origin(nf.Cond)); isF && a.CS != nil && fr.Type == a.CS.Obj().Name() && nf.True {
+			if bt, isB := nf.Cond.Type().Underlying().(*types.Basic); isB && bt.Kind() == types.Bool {
+				// the flag that guards the close of the signal: stored true next to a close of the signal somewhere
+				return c.flagGuardsSignal(fr, sig)
+			}
+		}
+		return false
+	}
+	var settles func(fn *ssa.Function, depth int) bool
+	isSettle := func(in ssa.Instruction, depth int) bool {
+		call, isC := in.(*ssa.Call)
+		if !isC {
+			return false
+		}
+		if calleeName(call) == "builtin.close" {
+			if fr, _, isF := loadedField(call.Call.Args[0]); isF && fr == sig {
+				return true
+			}
+		}
+		if h := helperCallee(call); h != nil && depth < 2 && inlinedCallee(call) == nil {
+			return settles(h, depth+1)
+		}
+		return false
+	}
+	settles = func(fn *ssa.Function, depth int) bool {
+		isExit := func(in ssa.Instruction) bool { _, isR := in.(*ssa.Return); return isR && in.Parent() == fn }
+		return pathAvoidingE(fn, nil, isExit, func(in ssa.Instruction) bool { return isSettle(in, depth) }, flagTrue) == nil
+	}
+	for i, ac := range accepts {
+		esc := pathAvoidingE(acc, nil, func(in ssa.Instruction) bool { return in == ac }, func(in ssa.Instruction) bool { return isSettle(in, 0) }, flagTrue)
+		c.check(esc == nil, rule, fmt.Sprintf("%s: data hand-over #%d happens with the headers settled", w.Short(acc), i+1), w.At(ac), "every path passes close("+sig.Field+") or finds it closed", "a data frame reaches the receiver on a path that has neither closed the headers signal nor found it closed: when the server sent no response_headers frame (legal when there are no headers) Header() blocks until the RPC ends, although messages are being delivered")
+	}
+}
+
+// flagGuardsSignal: the bool field is the once-guard of the signal's close: some function stores true into it and closes the
+// signal in the same region.
+func (c *Ctx) flagGuardsSignal(flag, sig FieldRef) bool {
+	for _, fn := range c.W.Funcs {
+		if isGenericTemplate(fn) {
+			continue
+		}
+		if len(closesOfField(fn, sig)) == 0 {
+			continue
+		}
+		for _, st := range storesToField(fn, flag) {
+			if isConstBool(st.Val, true) {
+				return true
+			}
+		}
+	}
+	return false
+}
